@@ -656,6 +656,20 @@ class KMeansL1L2(KMeans):
         self.n_features_in_ = X.shape[1]
         return self
 
+    def fit_transform(self, X, y=None, sample_weight=None):
+        """
+        Computes the clustering and transforms *X* to a cluster-distance space,
+        same as ``fit(X).transform(X)`` for both norms.
+
+        :param X: {array-like, sparse matrix} of shape (n_samples, n_features)
+            New data to transform.
+        :param y: Ignored
+        :param sample_weight: see :meth:`fit`
+        :return: X_new : array, shape [n_samples, k]
+            X transformed in the new space.
+        """
+        return self.fit(X, sample_weight=sample_weight).transform(X)
+
     def transform(self, X):
         """
         Transforms *X* to a cluster-distance space.
